@@ -86,4 +86,9 @@ theorem Levels.set_comm (L : Levels) {l l' : Level} (h : l ≠ l') (d d' : KVs) 
     · subst h2; simp [h1]
     · simp [h1, h2]
 
+theorem Levels.set_set (L : Levels) (l : Level) (d d' : KVs) : (L.set l d).set l d' = L.set l d' := by
+  funext x
+  simp only [Levels.set]
+  by_cases h : x = l <;> simp [h]
+
 end Inv
